@@ -336,6 +336,7 @@ class Circuit:
 
     def remove_dangling_nodes(self, root_node:Node, within=None):
         if within is not None and root_node not in within: return
+        if 'dff' in root_node.kind.lower() or 'latch' in root_node.kind.lower(): return  # keep the state vector (s_nodes) intact
         if len([l for l in root_node.outs if l is not None]) > 0: return
         lines = [l for l in root_node.ins if l is not None]
         drivers = [l.driver for l in lines]
